@@ -66,6 +66,30 @@ func c13One(c *Ctx, text string, idx int, local map[string]int64) {
 		}
 		r.Violation("panic-in-operation", map[string]interface{}{"input": text, "op": op.Name, "op_index": oi, "idx": idx, "site": site, "why": fmt.Sprintf("%s panicked in %s: %v", op.Name, site, pv), "stack": stk})
 	}
+	// the condition reduced under a valuer that knows every name but has no
+	// value for it (nil), and the tree that comes out of that reduced, split
+	// and evaluated again: trees the library itself produced are in the domain
+	if st, err, _, _, _ := parseQuery1(text); err == nil {
+		if cond, _, _, _ := stmtParts(st); cond != nil {
+			nils := influxql.MapValuer{}
+			for _, n := range refNames(st) {
+				nils[n] = nil
+			}
+			if p, pv, stk := mon.Try(func() {
+				r1 := influxql.Reduce(cond, nils)
+				_ = influxql.Reduce(r1, nil)
+				_ = influxql.Reduce(r1, &influxql.NowValuer{Now: fixedNow})
+				_, _, _ = influxql.ConditionExpr(r1, nil)
+				_ = influxql.EvalBool(r1, map[string]interface{}{})
+				_ = r1.String()
+			}); p {
+				r.Violation("panic-in-operation", map[string]interface{}{"input": text, "op": "Reduce(nil bindings), then Reduce / ConditionExpr / Eval / String of the result", "idx": idx, "site": panicSite(stk), "why": fmt.Sprint(pv), "stack": stk})
+			} else {
+				local["op.Reduce-with-nil-bindings-then-again"]++
+			}
+			r.Eval(1)
+		}
+	}
 }
 
 // c13Known recognises known panics by operation + panic site + trigger.
